@@ -1,9 +1,13 @@
 """C01 — elitist archives keep, per cell, the best candidate ever routed there."""
 import archlib
+from genf import translate  # noqa: E402,F401  (regenerates lean/PyribsGen/{Formulas,Control}.lean from the tree under check)
 
 ID = "C01"
-PROOF_MODULES = ["PyribsProofs.C01"]
+PROOF_MODULES = ["PyribsProofs.C01", "PyribsGen.Formulas", "PyribsGen.Control", "PyribsProofs.GenFArch"]
 THEOREMS = [
+    "Pyribs.GenFProofs.add_single_from_source",
+    "Pyribs.GenFProofs.batch_caninsert_from_source",
+    "Pyribs.GenFProofs.single_writes_from_source",
     "Pyribs.C01.contents_spec",
     "Pyribs.C01.contents_full",
     "Pyribs.C01.bestOf_spec",
